@@ -9,7 +9,7 @@ import mcbind_common as M
 import mc_common as MC
 
 TYPE_OF = {"iSend": "COMM_ASYNC_SEND", "iRecv": "COMM_ASYNC_RECV", "WaitComm": "COMM_WAIT", "TestComm": "COMM_TEST",
-           "ActorSleep": "ACTOR_SLEEP"}
+           "ActorSleep": "ACTOR_SLEEP", "ActorJoin": "ACTOR_JOIN", "ActorCreate": "ACTOR_CREATE"}
 
 # the harness of the model-checker binding keeps only part of the checker's record (parse_transition); C39/C40 also need
 # the communication identifier and the raw text: wrap it (mcbind_common.py itself is not modified)
@@ -53,6 +53,10 @@ def desc_of_view(v):
         f = [0, v["c"], v["f"], v["d"], v["o"]]
     elif t == "ACTOR_SLEEP":
         f = []
+    elif t == "ACTOR_JOIN":
+        f = [v["o"], 0]         # target, no timeout
+    elif t == "ACTOR_CREATE":
+        f = [v["o"]]            # child
     elif t == "CONDVAR_ASYNC_LOCK":
         f = [v["o"], v.get("m", 0)]
     elif t == "CONDVAR_WAIT":
@@ -67,7 +71,8 @@ def desc_of_view(v):
 def view_of_step(s):
     """View record of a step of a real execution (checker's record merged in the handle line by the harness)."""
     cv = s["ctype"].startswith("CONDVAR_")
-    return {"t": s["ctype"], "a": s["ca"], "o": s.get("ccond", 0) if cv else s.get("cobj", 0), "c": s.get("ccomm", 0),
+    life = s["ctype"] in ("ActorJoin", "ActorCreate")
+    return {"t": s["ctype"], "a": s["ca"], "o": s.get("ctgt", 0) if life else s.get("ccond", 0) if cv else s.get("cobj", 0), "c": s.get("ccomm", 0),
             "f": _end(s.get("cfrom", 0)), "d": _end(s.get("cto", 0)), "w": _end(s.get("cown", 0)), "g": s.get("cgranted", 0),
             "cap": s.get("ccap", 0), "m": s.get("cobj", 0) if s["ctype"] in ("CONDVAR_ASYNC_LOCK", "CONDVAR_WAIT") else 0,
             "to": s.get("ctimeout", 0)}
@@ -110,7 +115,7 @@ OPTYPES = {"lock": ("MUTEX_ASYNC_LOCK", "MUTEX_WAIT"), "trylock": ("MUTEX_TRYLOC
            "put": ("iSend", "WaitComm"), "get": ("iRecv", "WaitComm"), "puta": ("iSend",), "putd": ("iSend",),
            "geta": ("iRecv",), "wait": ("WaitComm",), "test": ("TestComm",), "sleep": ("ActorSleep",),
            "cvwait": ("CONDVAR_ASYNC_LOCK", "CONDVAR_WAIT", "MUTEX_WAIT"), "cvwaitfor": ("CONDVAR_ASYNC_LOCK", "CONDVAR_WAIT", "MUTEX_WAIT"),
-           "sig": ("CONDVAR_SIGNAL",), "bcast": ("CONDVAR_BROADCAST",)}
+           "sig": ("CONDVAR_SIGNAL",), "bcast": ("CONDVAR_BROADCAST",), "join": ("ActorJoin",), "create": ("ActorCreate",)}
 
 def executions(prog, res, indices=False):
     """The executions explored by one simgrid-mc run (result of mcbind_common.run_simgrid_mc): one list of steps per
